@@ -64,12 +64,7 @@ type walRead struct {
 	source int
 }
 
-func (t *table) processWALInserts() {
-	in := make(chan *walRead)
-	t.db.Go(func(stop <-chan interface{}) {
-		t.processInserts(in, stop)
-	})
-
+func (t *table) processWALInserts(in chan *walRead) {
 	for {
 		data, err := t.wal.Read()
 		if err != nil {
